@@ -1,11 +1,13 @@
 \* C09 leg A quick: 2 block goroutines, 0..2 series per block with 1..2 chunks, 0..1 postings without
-\* series, limits {0,1,2,3}, batch sizes {1,2}, lazy postings on/off; all interleavings
+\* series, series limits {0,1,2}, chunk limits {0,2}, batch sizes {1,2}, lazy postings on/off, SkipChunks on/off;
+\* all interleavings
 SPECIFICATION Spec
 CONSTANTS Blocks = {"b1", "b2"}
           MaxSeries = 2
           MaxChunks = 2
           MaxExtra = 1
-          Limits = {0, 1, 2, 3}
+          SLimits = {0, 1, 2}
+          CLimits = {0, 2}
           Batches = {1, 2}
           NonAtomic = FALSE
 INVARIANTS C09_SuccessWithinLimits C09_ExceedingFails C09_VerdictIndependentOfSchedule
